@@ -638,7 +638,10 @@ class Connection(ExportImport):
 
             # if we write an object, we don't want to check if it was read
             # while current.  This is a convenient choke point to do this.
-            self._readCurrent.pop(oid, None)
+            # (Not at a savepoint: the write may still be rolled back;
+            # _commit_savepoint drops the entries of what it stores.)
+            if transaction is not None:
+                self._readCurrent.pop(oid, None)
             if s:
                 # savepoint
                 obj._p_changed = 0  # transition from changed to up-to-date
